@@ -369,6 +369,41 @@ def _pass_filter_only(prog: Program, func: FuncInfo, expr: ast.AST, plugin_var: 
     return False
 
 
+def _loop_paths(prog: Program, func: FuncInfo, loop: ast.For, loop_var: str, events, foreign) -> Tuple[Set[int], Set[str], int, List[ast.AST]]:
+    """Paths through one iteration of ``loop``: the numbers of events on the paths that have any, the foreign
+    events seen, the number of paths without an event (the plugin is passed over) and the decisions on such
+    paths that are not pass filters."""
+    body_fn = ast.FunctionDef(name="<body>", args=ast.arguments(posonlyargs=[], args=[], kwonlyargs=[], kw_defaults=[], defaults=[]), body=loop.body, decorator_list=[], lineno=loop.lineno, col_offset=0)
+    cfg = CFG(body_fn, raising=lambda n: False)
+    counts: Set[int] = set()
+    wrong: Set[str] = set()
+    skipped_paths = 0
+    bad_filters: List[ast.AST] = []
+    leaves_iteration = lambda nid: isinstance(cfg.nodes[nid].ast_node, ast.Continue)  # noqa: E731
+    for path in enumerate_paths(cfg, loop_bound=1, stop=leaves_iteration):
+        count = 0
+        conditions: List[ast.AST] = []
+        for nid, _label in path:
+            node = cfg.nodes[nid]
+            if node.kind == "cond" and node.ast_node is not None:
+                conditions.append(node.ast_node)
+            if node.kind == "stmt" and node.ast_node is not None:
+                count += events(node.ast_node)
+                wrong |= foreign(node.ast_node)
+        if path[-1][0] == cfg.raise_exit:
+            continue
+        if count == 0:
+            # the plugin is passed over on this path: every decision that led here must be a pass filter
+            # (the context map / rule list of the pass and the plugin's id), whatever form the skip takes
+            skipped_paths += 1
+            for test in conditions:
+                if not _pass_filter_only(prog, func, test, loop_var, 0) and all(test is not known for known in bad_filters):
+                    bad_filters.append(test)
+            continue
+        counts.add(count)
+    return counts, wrong, skipped_paths, bad_filters
+
+
 def r14c(ctx: Context, rule_id: str = "R14c") -> None:
     """Four-way agreement of the dispatch tables (also R12d)."""
     prog = ctx.prog
@@ -397,8 +432,8 @@ def r14c(ctx: Context, rule_id: str = "R14c") -> None:
                     prop_of_field[node.value.attr] = name
     # (iii) list <- property in __apply_configuration
     list_of_prop: Dict[str, str] = {}
-    fillers = [apply_one] + [t for site in prog.sites_in(apply_one) for t in site.targets if t.cls == apply_one.cls]
-    for filler in fillers:  # the function that configures one plugin, or a private helper it hands the plugin to
+    fillers = [apply_one] + [prog.functions[q] for q in sorted(prog.reachable([apply_all])) if prog.functions[q].cls == apply_one.cls and prog.functions[q] != apply_one]
+    for filler in fillers:  # the function that configures one plugin, or a helper of the manager that the rebuild reaches
         for call in walk_local(filler.node):
             if isinstance(call, ast.Call) and isinstance(call.func, ast.Attribute) and call.func.attr == "append" and isinstance(call.func.value, ast.Attribute):
                 # the innermost property test that holds when the append runs (if-block or early-return form)
@@ -442,57 +477,71 @@ def r14c(ctx: Context, rule_id: str = "R14c") -> None:
             rule.fail(key + ": dispatcher", where(apply_one), f"PluginManager.{callback} is missing")
             continue
         loops = [n for n in walk_local(dispatcher.node) if isinstance(n, ast.For) and isinstance(n.iter, ast.Attribute)]
-        loops = [loop for loop in loops if "enabled_plugins" in loop.iter.attr]
+        loops = [(loop, loop.iter.attr, loop.target.id if isinstance(loop.target, ast.Name) else "") for loop in loops if "enabled_plugins" in loop.iter.attr]
+        stage_filters: List[Tuple[FuncInfo, ast.AST]] = []
+        stage_skips = 0
+        if not loops:
+            # the dispatch list may be handed to a generator of the manager that pairs / filters the plugins
+            for candidate in [n for n in walk_local(dispatcher.node) if isinstance(n, ast.For) and isinstance(n.iter, ast.Call)]:
+                listed = [(i, a) for i, a in enumerate(candidate.iter.args) if isinstance(a, ast.Attribute) and "enabled_plugins" in a.attr]
+                site = site_for(prog, dispatcher, candidate.iter)
+                if len(listed) != 1 or site is None or len(site.targets) != 1 or site.targets[0].cls != dispatcher.cls:
+                    continue
+                stage = site.targets[0]
+                bound_names = {v: k for k, v in ((k, v) for k, v in Program.bind_args(stage, candidate.iter, skip_self=stage.kind == "instance").items())}
+                listed_param = next((name for name, value in Program.bind_args(stage, candidate.iter, skip_self=stage.kind == "instance").items() if value is listed[0][1]), None)
+                inner = [n for n in walk_local(stage.node) if isinstance(n, ast.For) and isinstance(n.iter, ast.Name) and n.iter.id == listed_param and isinstance(n.target, ast.Name)]
+                yields = [n for n in walk_local(stage.node) if isinstance(n, (ast.Yield, ast.YieldFrom))]
+                if len(inner) != 1 or not yields or any(not any(sub is y for sub in ast.walk(inner[0])) for y in yields):
+                    continue
+                inner_var = inner[0].target.id
+
+                def passes_on(stmt: ast.AST) -> int:
+                    """1 when the statement yields the plugin at hand (alone or first of a tuple)"""
+                    found = 0
+                    for sub in ast.walk(stmt):
+                        if isinstance(sub, ast.Yield) and sub.value is not None:
+                            first = sub.value.elts[0] if isinstance(sub.value, ast.Tuple) and sub.value.elts else sub.value
+                            found += 1 if isinstance(first, ast.Name) and first.id == inner_var else 2
+                        elif isinstance(sub, ast.YieldFrom):
+                            found += 2
+                    return found
+
+                stage_counts, _, stage_skips, bad = _loop_paths(prog, stage, inner[0], inner_var, passes_on, lambda stmt: set())
+                if stage_counts - {1}:
+                    rule.fail(key + ": dispatcher", where(stage, inner[0]), f"{stage.short} hands a plugin on {sorted(stage_counts)} times on some path (must be exactly once)")
+                    continue
+                stage_filters = [(stage, test) for test in bad]
+                target = candidate.target
+                first = target.elts[0] if isinstance(target, ast.Tuple) and target.elts else target
+                loops.append((candidate, listed[0][1].attr, first.id if isinstance(first, ast.Name) else ""))
         if len(loops) != 1:
             rule.fail(key + ": dispatcher", where(dispatcher), f"PluginManager.{callback} has {len(loops)} dispatch loops")
             continue
-        loop = loops[0]
-        if loop.iter.attr != dispatch_list:
-            rule.fail(key + ": dispatcher", where(dispatcher, loop), f"PluginManager.{callback} iterates '{loop.iter.attr}' but plugins implementing '{callback}' are kept in '{dispatch_list}'")
+        loop, iterated, loop_var = loops[0]
+        if iterated != dispatch_list:
+            rule.fail(key + ": dispatcher", where(dispatcher, loop), f"PluginManager.{callback} iterates '{iterated}' but plugins implementing '{callback}' are kept in '{dispatch_list}'")
             continue
+
         # exactly one invocation of the same-named callback on every path through the loop body that is not skipped
-        body_fn = ast.FunctionDef(name="<body>", args=ast.arguments(posonlyargs=[], args=[], kwonlyargs=[], kw_defaults=[], defaults=[]), body=loop.body, decorator_list=[], lineno=loop.lineno, col_offset=0)
-        cfg = CFG(body_fn, raising=lambda n: False)
-        counts: Set[int] = set()
-        wrong: Set[str] = set()
-        skipped_paths = 0
-        loop_var = loop.target.id if isinstance(loop.target, ast.Name) else ""
-        bad_filters: List[ast.AST] = []
-        leaves_iteration = lambda nid: isinstance(cfg.nodes[nid].ast_node, ast.Continue)  # noqa: E731
-        for path in enumerate_paths(cfg, loop_bound=1, stop=leaves_iteration):
-            count = 0
-            conditions: List[ast.AST] = []
-            for nid, label in path:
-                node = cfg.nodes[nid]
-                if node.kind == "cond" and node.ast_node is not None:
-                    conditions.append(node.ast_node)
-                if node.kind == "stmt" and node.ast_node is not None:
-                    for call in [c for c in ast.walk(node.ast_node) if isinstance(c, ast.Call)]:
-                        if isinstance(call.func, ast.Attribute) and isinstance(call.func.value, ast.Attribute) and call.func.value.attr == "plugin_instance":
-                            if call.func.attr == callback:
-                                count += 1
-                            elif call.func.attr in EVENT_METHODS:
-                                wrong.add(call.func.attr)
-            if path[-1][0] == cfg.raise_exit:
-                continue
-            if count == 0:
-                # the plugin is passed over on this path: every decision that led here must be a pass filter
-                # (the context map / rule list of the pass and the plugin's id), whatever form the skip takes
-                skipped_paths += 1
-                for test in conditions:
-                    if not _pass_filter_only(prog, dispatcher, test, loop_var, 0) and all(test is not known for known in bad_filters):
-                        bad_filters.append(test)
-                continue
-            counts.add(count)
+        def invocations(stmt: ast.AST) -> int:
+            return sum(1 for call in ast.walk(stmt) if isinstance(call, ast.Call) and isinstance(call.func, ast.Attribute) and isinstance(call.func.value, ast.Attribute) and call.func.value.attr == "plugin_instance" and call.func.attr == callback)
+
+        def others(stmt: ast.AST) -> Set[str]:
+            return {call.func.attr for call in ast.walk(stmt) if isinstance(call, ast.Call) and isinstance(call.func, ast.Attribute) and isinstance(call.func.value, ast.Attribute) and call.func.value.attr == "plugin_instance" and call.func.attr != callback and call.func.attr in EVENT_METHODS}
+
+        counts, wrong, skipped_paths, bad_tests = _loop_paths(prog, dispatcher, loop, loop_var, invocations, others)
+        skipped_paths += stage_skips
+        bad_filters = [(dispatcher, test) for test in bad_tests] + stage_filters
         if wrong:
             rule.fail(key + ": dispatcher", where(dispatcher, loop), f"PluginManager.{callback} invokes {sorted(wrong)} on the plugins")
         elif counts != {1}:
             rule.fail(key + ": dispatcher", where(dispatcher, loop), f"PluginManager.{callback} invokes the callback {sorted(counts)} times on some path through the dispatch loop (must be exactly once per dispatched plugin)")
         else:
             rule.ok(key + ": dispatcher", f"iterates {dispatch_list}, one call per plugin; {skipped_paths} filtered path(s)")
-        for test in bad_filters:
+        for holder, test in bad_filters:
             text = norm(test)
-            rule.fail(f"{key}: filter '{text}'", where(dispatcher, test), f"PluginManager.{callback} skips plugins on '{text}', which is not a pass filter: an enabled rule misses events")
+            rule.fail(f"{key}: filter '{text}'", where(holder, test), f"PluginManager.{callback} skips plugins on '{text}', which is not a pass filter: an enabled rule misses events")
         if skipped_paths and not bad_filters:
             rule.ok(f"{key}: filters", "plugins are passed over only by the pass's context map / rule list and the plugin's id")
 
